@@ -6,6 +6,11 @@ Require Import TensorIndex C23Spec C23_g0_n1_p0 C23_g0_n2_p0 C23_g0_n3_p0 C23_g1
 Import ListNotations.
 Local Open Scope R_scope.
 
+Theorem C23_rt_cauchy_pk2_full : forall a b : nat -> R,
+  (det2 (full_t 3%nat b) <> 0 -> rt_cauchy_pk2_3 a b = flat_s 3%nat (spec_rt_cauchy_pk2 3%nat (full_s 3%nat a) (full_t 3%nat b))).
+Proof. intros a b; exact (rt_cauchy_pk2_3_ok a b). Qed.
+Print Assumptions C23_rt_cauchy_pk2_full.
+
 Theorem C23_rt_pk2_cauchy_full : forall a b : nat -> R,
   (det2 (full_t 3%nat b) <> 0 -> rt_pk2_cauchy_3 a b = flat_s 3%nat (spec_rt_pk2_cauchy 3%nat (full_s 3%nat a) (full_t 3%nat b))).
 Proof. intros a b; exact (rt_pk2_cauchy_3_ok a b). Qed.
@@ -78,9 +83,8 @@ Print Assumptions C23_DTAU_DF_from_SPATIAL_MODULI_full.
 
 Theorem C23_DSIG_DF_from_DS_DEGL_full : forall a b c d : nat -> R,
   (det2 (full_t 1%nat c) <> 0 -> DSIG_DF_from_DS_DEGL_1 a b c d = flat_C 1%nat (spec_DSIG_DF_from_DS_DEGL 1%nat (full_A 1%nat a) (full_t 1%nat b) (full_t 1%nat c) (full_s 1%nat d))) /\
-  (det2 (full_t 2%nat c) <> 0 -> DSIG_DF_from_DS_DEGL_2 a b c d = flat_C 2%nat (spec_DSIG_DF_from_DS_DEGL 2%nat (full_A 2%nat a) (full_t 2%nat b) (full_t 2%nat c) (full_s 2%nat d))) /\
-  (det2 (full_t 3%nat c) <> 0 -> DSIG_DF_from_DS_DEGL_3 a b c d = flat_C 3%nat (spec_DSIG_DF_from_DS_DEGL 3%nat (full_A 3%nat a) (full_t 3%nat b) (full_t 3%nat c) (full_s 3%nat d))).
-Proof. intros a b c d; exact (conj (DSIG_DF_from_DS_DEGL_1_ok a b c d) (conj (DSIG_DF_from_DS_DEGL_2_ok a b c d) (DSIG_DF_from_DS_DEGL_3_ok a b c d))). Qed.
+  (det2 (full_t 2%nat c) <> 0 -> DSIG_DF_from_DS_DEGL_2 a b c d = flat_C 2%nat (spec_DSIG_DF_from_DS_DEGL 2%nat (full_A 2%nat a) (full_t 2%nat b) (full_t 2%nat c) (full_s 2%nat d))).
+Proof. intros a b c d; exact (conj (DSIG_DF_from_DS_DEGL_1_ok a b c d) (DSIG_DF_from_DS_DEGL_2_ok a b c d)). Qed.
 Print Assumptions C23_DSIG_DF_from_DS_DEGL_full.
 
 Theorem C23_DSIG_DF_from_C_TRUESDELL_full : forall a b c d : nat -> R,
@@ -134,11 +138,6 @@ Theorem C23_rt_DTAU_DF_DTAU_DDF_full : forall a b c d : nat -> R,
   (det2 (full_t 3%nat b) <> 0 -> rt_DTAU_DF_DTAU_DDF_3 a b c d = flat_C 3%nat (spec_rt_DTAU_DF_DTAU_DDF 3%nat (full_C 3%nat a) (full_t 3%nat b) (full_t 3%nat c) (full_s 3%nat d))).
 Proof. intros a b c d; exact (rt_DTAU_DF_DTAU_DDF_3_ok a b c d). Qed.
 Print Assumptions C23_rt_DTAU_DF_DTAU_DDF_full.
-
-Theorem C23_rt_DS_DEGL_SPATIAL_MODULI_full : forall a b c d : nat -> R,
-  (det2 (full_t 3%nat c) <> 0 -> rt_DS_DEGL_SPATIAL_MODULI_3 a b c d = flat_A 3%nat (spec_rt_DS_DEGL_SPATIAL_MODULI 3%nat (full_A 3%nat a) (full_t 3%nat b) (full_t 3%nat c) (full_s 3%nat d))).
-Proof. intros a b c d; exact (rt_DS_DEGL_SPATIAL_MODULI_3_ok a b c d). Qed.
-Print Assumptions C23_rt_DS_DEGL_SPATIAL_MODULI_full.
 
 Theorem C23_rt_C_TAU_JAUMANN_DTAU_DF_full : forall a b c d : nat -> R,
   (det2 (full_t 3%nat c) <> 0 -> rt_C_TAU_JAUMANN_DTAU_DF_3 a b c d = flat_A 3%nat (spec_rt_C_TAU_JAUMANN_DTAU_DF 3%nat (full_A 3%nat a) (full_t 3%nat b) (full_t 3%nat c) (full_s 3%nat d))).
